@@ -97,13 +97,13 @@ PROPS = {
         assumptions=PROC_ASSUME['C01'],
     ),
     'C02': dict(
-        lean=['Props.C02', 'Props.FactsProc'],
+        lean=['Props.C02', 'Props.PipeC03', 'Props.FactsProc'],
         streams=['processor'],
         project={'processor': r'^< (md|m\.|re|rs|ret|panic)'}, rule=PROC_RULE, trusted=PROC_TRUSTED,
         assumptions=PROC_ASSUME['C02'],
     ),
     'C03': dict(
-        lean=['Props.C03', 'Props.C03Spec', 'Props.FactsProc'],
+        lean=['Props.C03', 'Props.C03Spec', 'Props.PipeC03', 'Props.FactsProc'],
         streams=['processor', 'e2e'],
         project={'processor': r'^< (md|m\.|re|rs|ret|panic)', 'e2e': r'^< config'}, rule=PROC_RULE, trusted=PROC_TRUSTED,
         assumptions=PROC_ASSUME['C03'],
@@ -116,8 +116,8 @@ PROPS = {
     ),
     'C12': dict(
         lean=['Props.C12', 'Props.C12Spec', 'Props.FactsProc'],
-        streams=['processor', 'fs', 'throttle'],
-        project={'fs': r'^< (ret|panic)', 'throttle': r'^$'},
+        streams=['processor', 'fs', 'throttle', 'e2e'],
+        project={'fs': r'^< (ret|panic)', 'throttle': r'^$', 'e2e': r'^$'},
         rule=PROC_RULE, trusted=PROC_TRUSTED,
         assumptions=PROC_ASSUME['C12'],
     ),
@@ -148,8 +148,9 @@ PROPS = {
         assumptions=['fixed threshold, no FFC-affected frame (C09 covers FFC)', 'count-thresh >= 1', 'pixel values < 65536 (uint16 in the real code)'],
     ),
     'C08': dict(
-        lean=['Props.C08', 'Props.FactsProc'],
-        streams=['detector'],
+        lean=['Props.C08', 'Props.C13Parse', 'Props.FactsProc'],
+        streams=['detector', 'parse'],
+        project={'parse': r'^$'},
         rule=DET_RULE, trusted=DET_TRUSTED,
         assumptions=['same event skeleton (resets, FFC flags) in both streams'],
     ),
